@@ -106,7 +106,9 @@ def make_clock():
 class Stack:
     """StorageServer + HTTPServer + StubTreq + StorageClient in one process, on a frozen clock."""
 
-    def __init__(self, name, swissnum, clock=None, nodeid=b"\x00" * 20):
+    def __init__(self, name, swissnum, clock=None, nodeid=b"\x00" * 20, from_dir=None, in_place=False):
+        """from_dir: start from a copy of that storage directory (shares migrated to another node);
+        in_place: serve the existing directory `name` again (the node's identity was regenerated)"""
         _prepare()
         from twisted.internet import task as ttask
         from twisted.internet.task import Cooperator
@@ -116,8 +118,13 @@ class Stack:
         from allmydata.storage.http_server import HTTPServer
         from allmydata.storage.http_client import StorageClient
         self.dir = os.path.join(WORK, name)
-        shutil.rmtree(self.dir, ignore_errors=True)
-        os.makedirs(self.dir)
+        if not in_place:
+            shutil.rmtree(self.dir, ignore_errors=True)
+            if from_dir is not None:
+                shutil.copytree(from_dir, self.dir)
+            else:
+                os.makedirs(self.dir)
+        self.nodeid = nodeid
         self.clock = clock or make_clock()
         ttask._theCooperator = Cooperator(scheduler=lambda c: self.clock.callLater(0, c))
         self.swissnum = swissnum
@@ -130,6 +137,22 @@ class Stack:
         self.treq = StubTreq(self.hs.get_resource())
         self.client = StorageClient(DecodedURL.from_text("http://127.0.0.1"), swissnum, treq=self.treq, pool=None,
                                     clock=self.clock)
+
+    def migrated(self, swissnum, nodeid, copy):
+        """the same shares served by another node: a copy of the storage directory on a server with another nodeid and
+        swissnum (copy=True), or this directory served again after the node's identity was regenerated (copy=False).
+        The old server object is dropped without aborting anything (its process is gone)."""
+        for c in self.conns.values():
+            c.close()
+        for dc in self.clock.getDelayedCalls():
+            dc.cancel()
+        name = os.path.basename(self.dir)
+        if copy:
+            new = Stack(name + "-b", swissnum, nodeid=nodeid, from_dir=self.dir)
+            shutil.rmtree(self.dir, ignore_errors=True)
+        else:
+            new = Stack(name, swissnum, nodeid=nodeid, in_place=True)
+        return new
 
     def close(self):
         for c in self.conns.values():
@@ -243,9 +266,10 @@ class Stack:
                     if MutableShareFile.is_valid_header(header):
                         m = MutableShareFile(fn, self.ss)
                         with open(fn, "rb") as f:
-                            (we, _nodeid) = m._read_write_enabler_and_nodeid(f)
+                            (we, rec_nodeid) = m._read_write_enabler_and_nodeid(f)
                         data = m.readv([(0, m.get_length())])[0]
-                        items.append("M%s/%d=%s:%s%s" % (si_s, int(n), hx(we), hx(data), show_leases(m.get_leases())))
+                        items.append("M%s/%d=%s:%s%s@%s" % (si_s, int(n), hx(we), hx(data), show_leases(m.get_leases()),
+                                                            hx(rec_nodeid)))
                     else:
                         s = ShareFile(fn)
                         data = s.read_share_data(0, s.get_length())
@@ -1107,7 +1131,7 @@ def clearly_bad_secrets(req):
 def run_history(ctx, hist_id, w_swissnum, reqs, monitor_world=None):
     """returns (impl output line, driver line)"""
     stack = Stack("c30-%d" % os.getpid(), w_swissnum)
-    outs, toks = [], []
+    outs, toks = ["ctl"], ["@node:" + hx(stack.nodeid)]
     on_conn = {}
     case = {"kind": "hist", "swissnum": w_swissnum.hex(), "reqs": reqs}
     try:
@@ -1115,6 +1139,21 @@ def run_history(ctx, hist_id, w_swissnum, reqs, monitor_world=None):
         after_abs = stack.abstract()
         for i, req in enumerate(reqs):
             before_raw, before_abs = after_raw, after_abs
+            if req["route"] == "@migrate":
+                stack = stack.migrated(bytes.fromhex(req["swissnum"]), bytes.fromhex(req["nodeid"]), req["copy"])
+                w_swissnum = stack.swissnum
+                on_conn = {}
+                after_raw, after_abs = stack.raw_snapshot(), stack.abstract()
+                outs.append("ctl")
+                toks.append("@migrate:%s:%s" % (hx(stack.swissnum), hx(stack.nodeid)))
+                ctx.count("migrate:" + ("copy" if req["copy"] else "in-place"))
+                # the move itself must not alter the shares (only the incoming/ directory is emptied)
+                fb = {p_: c_ for p_, c_ in before_raw[0].items() if "/incoming" not in p_ and p_.startswith("shares")}
+                fa = {p_: c_ for p_, c_ in after_raw[0].items() if "/incoming" not in p_ and p_.startswith("shares")}
+                if fb != fa:
+                    ctx.violation("starting a server on an existing share directory changed share files",
+                                  {"kind": "hist", "swissnum": case["swissnum"], "reqs": reqs[:i + 1]}, "server-start-changes-shares")
+                continue
             datas = [d for d in stack.share_datas(before_abs) if len(d) >= 4]
             code, rh, body, tok = send(stack, req)
             resp = canon_response(req, code, rh, body)
@@ -1130,7 +1169,7 @@ def run_history(ctx, hist_id, w_swissnum, reqs, monitor_world=None):
             outs.append("%s:%s" % (resp, chg))
             toks.append(tok)
             # ---- monitor: the property statement on the real server
-            sub = {"kind": "hist", "swissnum": w_swissnum.hex(), "reqs": reqs[:i + 1]}
+            sub = {"kind": "hist", "swissnum": case["swissnum"], "reqs": reqs[:i + 1]}
             knows = presents_swissnum(req, w_swissnum)
             if req.get("conn") is not None:
                 on_conn[req["conn"]] = on_conn.get(req["conn"], 0) + 1
